@@ -186,29 +186,30 @@ Definition import_standard (id : Z) (ds : dsignal) : result signal :=
                  (ds_unit ds) 0 0 0 EmptyString fl_zero 0 []).
 
 (* importSignal: returns the signal and the state (enum min size, signals map) *)
+(* the enum object of an enum signal (importSignal): the enum the VAL_ line resolved to, or a
+   clone of it when it is already referenced by a signal of another size; SetMinSize when the file's
+   size is larger; refused when the values do not fit.  Returns the index used and the new table. *)
+Definition enum_for_signal (es : list enum_def) (refs : list Z) (ei0 size : Z) : result (Z * list enum_def) :=
+  let e0 := nth_enum es ei0 in
+  let shared := mem_z ei0 refs && negb (enum_size e0 =? size) in
+  let ei := if shared then Z.of_nat (length es) else ei0 in
+  let es0 := if shared then es ++ [mkenum (en_name e0) (en_values e0) (en_maxindex e0) 1] else es in
+  let e := nth_enum es0 ei in
+  let es1 := if enum_size e <? size
+             then replace_nth (Z.to_nat ei) (mkenum (en_name e) (en_values e) (en_maxindex e) size) es0
+             else es0 in
+  if enum_size (nth_enum es1 ei) >? size then Err "value description does not fit in the signal"
+  else Ok (ei, es1).
+
 Definition import_signal (env : ienv) (st : istate) (mpos : nat) (msgid : Z) (id : Z) (ds : dsignal)
   : result (signal * istate) :=
   let k := (msgid, ds_name ds) in
   do sst <-
     match lookup key_eqb k (ie_sig_enums env) with
     | Some ei0 =>
-        (* an enum already referenced by a signal of another size is cloned for this signal *)
-        let e0 := nth_enum (is_enums st) ei0 in
-        let shared := mem_z ei0 (is_enum_refs st) && negb (enum_size e0 =? ds_size ds) in
-        let ei := if shared then Z.of_nat (length (is_enums st)) else ei0 in
-        let st0 := if shared
-                   then set_enums st (is_enums st ++ [mkenum (en_name e0) (en_values e0) (en_maxindex e0) 1])
-                   else st in
-        let e := nth_enum (is_enums st0) ei in
-        let st1 := if enum_size e <? ds_size ds
-                   then set_enums st0 (replace_nth (Z.to_nat ei)
-                                        (mkenum (en_name e) (en_values e) (en_maxindex e) (ds_size ds))
-                                        (is_enums st0))
-                   else st0 in
-        if enum_size (nth_enum (is_enums st1) ei) >? ds_size ds then Err "value description does not fit in the signal"
-        else
+        do (ei, es1) <- enum_for_signal (is_enums st) (is_enum_refs st) ei0 (ds_size ds);
         Ok (mksignal id (ds_name ds) KEnum 0 None [] 0 false fl_one fl_zero fl_zero fl_zero
-                     EmptyString ei 0 0 EmptyString fl_zero 0 [], add_enum_ref st1 ei)
+                     EmptyString ei 0 0 EmptyString fl_zero 0 [], add_enum_ref (set_enums st es1) ei)
     | None => do s <- import_standard id ds; Ok (s, st)
     end;
   let '(s, st1) := sst in
@@ -281,15 +282,37 @@ Fixpoint expand_ranges (gcount : Z) (rs : list (Z * Z)) : result (list Z) :=
       else do rest <- expand_ranges gcount r; Ok (zrange from (Z.to_nat (to - from + 1)) ++ rest)
   end.
 
+(* the group ids a multiplexed signal is inserted with (importMuxSignal): the SG_MUL_VAL_ ranges
+   when the extended section lists the signal (all groups = fixed), else its switch value, else fixed *)
+Definition child_groups (env : ienv) (msgid gcount : Z) (s : signal) (ds : dsignal) : result (list Z) :=
+  match lookup key_eqb (msgid, s_name s) (ie_ext_muxes env) with
+  | Some em =>
+      do g0 <- expand_ranges gcount (em_ranges em);
+      let g := dedup_z [] g0 in      (* overlapping ranges name a group once *)
+      Ok (if Z.of_nat (length g) =? gcount then [] else g)
+  | None => Ok (if ds_muxed ds then [ds_switch ds] else [])
+  end.
+
+(* the insertion loop of importMuxSignal: direct children and everything below them *)
+Definition mux_children (env : ienv) (es : list enum_def) (msgid : Z) (mx : signal) (mstart msize : Z)
+           (muxed : list (subtree * dsignal)) : result (list signal * list signal) :=
+  fold_left (fun acc (p : subtree * dsignal) =>
+               do (kids, belows) <- acc;
+               let rel := get_start_bit (snd p) - mstart - msize in
+               do gids <- child_groups env msgid (s_gcount mx) (fst (fst p)) (snd p);
+               do c <- mux_insert es mx kids (fst (fst p)) rel gids;
+               Ok (kids ++ [c], belows ++ snd (fst p)))
+            muxed (Ok ([], [])).
+
 (* importMuxSignal *)
 Definition import_mux_signal (env : ienv) (st : istate) (mpos : nat) (msgid : Z) (msize : Z) (id : Z) (dm : dsignal)
            (muxed : list (subtree * dsignal)) : result (subtree * istate) :=
   let es := is_enums st in
   (* a multiplexed signal that ends beyond the message is refused before the groups are sized *)
-  if existsb (fun '((s, _), ds) => sig_size es s + get_start_bit ds >? msize * 8) muxed
+  if existsb (fun p : subtree * dsignal => sig_size es (fst (fst p)) + get_start_bit (snd p) >? msize * 8) muxed
   then Err "multiplexed signal ends beyond the message" else
-  let end_bit := fold_left (fun acc '((s, _), ds) =>
-                   let e := sig_size es s + get_start_bit ds in if e >? acc then e else acc) muxed 0 in
+  let end_bit := fold_left (fun acc (p : subtree * dsignal) =>
+                   let e := sig_size es (fst (fst p)) + get_start_bit (snd p) in if e >? acc then e else acc) muxed 0 in
   let mstart := get_start_bit dm in
   let msize := ds_size dm in
   (* without multiplexed signals the file does not tell the group size: the smallest one *)
@@ -301,24 +324,10 @@ Definition import_mux_signal (env : ienv) (st : istate) (mpos : nat) (msgid : Z)
   else
     let mx := mksignal id (ds_name dm) KMux 0 None [] 0 false fl_one fl_zero fl_zero fl_zero EmptyString
                        0 gcount gsize EmptyString fl_zero 0 [] in
-    do kb <- fold_left (fun acc '((s, below), ds) =>
-               do (kids, belows) <- acc;
-               let rel := get_start_bit ds - mstart - msize in
-               do gids <-
-                 match lookup key_eqb (msgid, s_name s) (ie_ext_muxes env) with
-                 | Some em =>
-                     do g0 <- expand_ranges gcount (em_ranges em);
-                     let g := dedup_z [] g0 in      (* overlapping ranges name a group once *)
-                     Ok (if Z.of_nat (length g) =? gcount then [] else g)
-                 | None => Ok (if ds_muxed ds then [ds_switch ds] else [])
-                 end;
-               do c <- mux_insert es mx kids s rel gids;
-               Ok (kids ++ [c], belows ++ below))
-             muxed (Ok ([], []));
-    let '(kids, belows) := kb in
+    do kb <- mux_children env es msgid mx mstart msize muxed;
     let k := (msgid, ds_name dm) in
     let mx1 := match lookup key_eqb k (ie_sig_desc env) with Some d => set_desc mx d | None => mx end in
-    Ok ((mx1, kids ++ belows), set_sigmap st ((k, (mpos, id)) :: is_sigmap st)).
+    Ok ((mx1, fst kb ++ snd kb), set_sigmap st ((k, (mpos, id)) :: is_sigmap st)).
 
 (* ---- importMessage ---- *)
 Fixpoint index_from {A} (i : Z) (l : list A) : list (Z * A) :=
